@@ -4,7 +4,7 @@ C15 — a minimal stack semantics of exactly the op codes miniscript emits, for 
 theorems (T3).  `Op` is the script as a list of instructions, `ser` its serialization (the inverse
 of script decoding), `opsOf` the instruction list `_fragment_script` writes (proved to serialize to
 `compile`), `exec` Bitcoin Core's `EvalScript` loop restricted to the op codes of the fragment set
-covered so far: pushes, OP_0, OP_1, CHECKSIG(VERIFY), VERIFY, BOOLAND, BOOLOR, 0NOTEQUAL, IFDUP, SWAP,
+covered so far: pushes (data and numbers), OP_0, OP_1, DUP, SIZE, EQUAL(VERIFY), the hash op codes, CSV, CLTV, CHECKSIG(VERIFY), VERIFY, BOOLAND, BOOLOR, 0NOTEQUAL, IFDUP, SWAP,
 TOALTSTACK, FROMALTSTACK, IF, NOTIF, ELSE, ENDIF.  Any other op code is `none` ("not modelled"), never a wrong answer.
 The full Core-shaped evaluator is C08's.
 -/
@@ -97,18 +97,26 @@ structure St where
   conds : List Bool
   deriving DecidableEq, Repr
 
+/-- what the spend at hand decides: the signature check, the hash functions, and whether the
+    transaction's nSequence / nLockTime meet the number on the stack (BIP112 / BIP65). -/
+structure EvalEnv where
+  sigOK : Key → Bytes → Bool
+  hashF : HashKind → Bytes → Bytes
+  csvOK : Bytes → Bool
+  cltvOK : Bytes → Bool
+
 /-- every enclosing OP_IF/OP_NOTIF branch is the taken one (Core's `fExec`). -/
 def executing (conds : List Bool) : Bool := conds.all id
 
-/-- an executed instruction other than IF/ELSE/ENDIF. `sigOK key sig` is the signature check of
+/-- an executed instruction other than IF/ELSE/ENDIF. `E.sigOK key sig` is the signature check of
     the spend at hand. -/
-def stepExec (sigOK : Key → Bytes → Bool) (o : Op) (s : St) : Option St :=
+def stepExec (E : EvalEnv) (o : Op) (s : St) : Option St :=
   match o, s.stack with
   | .push d, st => some { s with stack := d :: st }
   | .op0, st => some { s with stack := [] :: st }
   | .op1, st => some { s with stack := [1] :: st }
-  | .checksig, k :: sg :: st => some { s with stack := boolBytes (sigOK k sg) :: st }
-  | .checksigverify, k :: sg :: st => if sigOK k sg then some { s with stack := st } else none
+  | .checksig, k :: sg :: st => some { s with stack := boolBytes (E.sigOK k sg) :: st }
+  | .checksigverify, k :: sg :: st => if E.sigOK k sg then some { s with stack := st } else none
   | .verify, v :: st => if castToBool v then some { s with stack := st } else none
   | .swap, a :: b :: st => some { s with stack := b :: a :: st }
   | .toalt, a :: st => some { s with stack := st, alt := a :: s.alt }
@@ -128,11 +136,20 @@ def stepExec (sigOK : Key → Bytes → Bool) (o : Op) (s : St) : Option St :=
     | some b => some { s with stack := boolBytes b :: st }
     | none => none
   | .ifdup, v :: st => some { s with stack := if castToBool v then v :: v :: st else v :: st }
+  | .pushnum n, st => some { s with stack := encodeNum n :: st }
+  | .dup, v :: st => some { s with stack := v :: v :: st }
+  | .hash160, v :: st => some { s with stack := E.hashF .hash160 v :: st }
+  | .hashop h, v :: st => some { s with stack := E.hashF h v :: st }
+  | .equal, b :: a :: st => some { s with stack := boolBytes (a == b) :: st }
+  | .equalverify, b :: a :: st => if a = b then some { s with stack := st } else none
+  | .size, v :: st => some { s with stack := encodeNum v.length :: v :: st }
+  | .csv, v :: _ => if E.csvOK v then some s else none
+  | .cltv, v :: _ => if E.cltvOK v then some s else none
   | _, _ => none
 
 /-- one instruction of `EvalScript`.  An OP_IF argument must be empty or 0x01 (MINIMALIF: consensus
     for tapscript, policy for P2WSH). -/
-def step (sigOK : Key → Bytes → Bool) (o : Op) (s : St) : Option St :=
+def step (E : EvalEnv) (o : Op) (s : St) : Option St :=
   match o with
   | .opif =>
     if executing s.conds then
@@ -152,10 +169,10 @@ def step (sigOK : Key → Bytes → Bool) (o : Op) (s : St) : Option St :=
   | .endif => match s.conds with
     | _ :: cs => some { s with conds := cs }
     | [] => none
-  | o => if executing s.conds then stepExec sigOK o s else some s
+  | o => if executing s.conds then stepExec E o s else some s
 
-def exec (sigOK : Key → Bytes → Bool) : List Op → St → Option St
+def exec (E : EvalEnv) : List Op → St → Option St
   | [], s => some s
-  | o :: os, s => (step sigOK o s).bind (exec sigOK os)
+  | o :: os, s => (step E o s).bind (exec E os)
 
 end Btc.Miniscript
